@@ -450,6 +450,24 @@ func c17Build(n c17Node) *c17Built {
 		return c17MapB(m, "map[string]string", keys, ks)
 	case "nilmapss":
 		return c17MapB(map[string]string(nil), "map[string]string", nil, nil)
+	case "mapns": // map keyed by a defined string type: Go reaches m["k"], so does a path step
+		m := map[NamedString]string{}
+		for i, key := range n.Keys {
+			if i < len(n.Kids) {
+				m[NamedString(key)] = n.Kids[i].S
+			}
+		}
+		var keys []string
+		var ks []*c17Built
+		raw := map[string]string{}
+		for k, v := range m {
+			raw[string(k)] = v
+		}
+		for _, key := range sortedKeys(raw) {
+			keys = append(keys, key)
+			ks = append(ks, c17Leaf(raw[key]))
+		}
+		return c17MapB(m, "map[NamedString]string", keys, ks)
 	case "mapsi":
 		m := map[string]int{}
 		for i, key := range n.Keys {
@@ -655,6 +673,7 @@ var c17Terminals = []c17Node{
 	{K: "u8", I: 200},
 	{K: "mapss", Keys: []string{"k", "m"}, Kids: []c17Node{c17Str("vk"), c17Str("")}},
 	{K: "mapsi", Keys: []string{"k", "z"}, Kids: []c17Node{c17Int(5), c17Int(0)}},
+	{K: "mapns", Keys: []string{"en", "k"}, Kids: []c17Node{c17Str("Hello"), c17Str("nk")}},
 	{K: "mapis", Keys: []string{"1", "2"}, Kids: []c17Node{c17Str("one"), c17Int(2)}},
 	{K: "strs", Kids: []c17Node{c17Str("p"), c17Str(""), c17Str("r")}},
 	{K: "ints", Kids: []c17Node{c17Int(0), c17Int(7)}},
